@@ -369,6 +369,19 @@ def standard_build(chk: Check, gens, targets, theorems, prop_files, src=None):
         rg = regen(gens)
         for g, err in rg.items():
             chk.oblige(f'translate:{g}', 'translation', err is None, err or 'regenerated from ' + str(REPO))
+        if src:
+            # function bodies are translated one by one: a body outside the translator's subset breaks the ties of the properties that
+            # mention it (and only those)
+            try:
+                import t_funcs
+                used = ''.join((LEAN / f).read_text() for f in [src['file']] + list(src.get('lemma_files', [])) if (LEAN / f).exists())
+                for names, why in getattr(t_funcs.generate, 'failed', []):
+                    hit = [n for n in names if re.search(r'Src\.' + re.escape(n) + r'\b', used)]
+                    if hit:
+                        chk.oblige('translate:funcs:' + hit[0], 'translation', False,
+                                   f'not translatable any more ({why}); source ties that mention {", ".join(hit)} cannot be checked')
+            except Exception as e:  # noqa
+                chk.notes.append(f'could not read the translator report: {e}')
         ok, out = lake_build(list(targets) + ([src['module']] if src else []) + ['bcdrv'])
         bad = failing_decls(out) if not ok else {}
         if not ok and not bad:
